@@ -84,4 +84,103 @@ theorem ref_revcomp {b : Bag} (h : Good b) : Refines b .revcomp := by
         simp only [revcompRows_ok _ hbad']
         rfl
 
+/-! ### `ReplaceChar` -/
+
+theorem setInRow_of_not_mem (i j : Nat) (c : Byte) (rows : List Row) (h : i ∉ rows.map (·.id)) :
+    setInRow i j c rows = rows := by
+  induction rows with
+  | nil => rfl
+  | cons x t ih =>
+    simp only [List.map_cons, List.mem_cons, not_or] at h
+    have hx : (x.id == i) = false := by simpa using fun e => h.1 e.symm
+    have := ih h.2
+    simp only [setInRow, List.map_cons] at this ⊢
+    rw [this, hx]; simp
+
+/-- writing through the pointer of the first row called `n` = updating the first pair called `n` -/
+theorem pairs_setInRow {rows : List Row} (hn : (rows.map (·.id)).Nodup) {n : String} {r0 : Row}
+    (hf : rows.find? (fun r => r.name == n) = some r0) (j : Nat) (c : Byte) :
+    (setInRow r0.id j c rows).map (fun r => (r.name, r.seq)) =
+      updateFirst n (fun s => s.set j c) (rows.map fun r => (r.name, r.seq)) := by
+  induction rows with
+  | nil => simp at hf
+  | cons x t ih =>
+    simp only [List.map_cons, List.nodup_cons] at hn
+    simp only [List.find?_cons] at hf
+    by_cases hx : (x.name == n) = true
+    · simp only [hx, Option.some.injEq] at hf
+      subst hf
+      have htail := setInRow_of_not_mem x.id j c t hn.1
+      simp only [setInRow, List.map_cons] at htail ⊢
+      rw [htail]
+      simp [updateFirst, hx, setAt]
+    · have hx' : (x.name == n) = false := by simpa using hx
+      simp only [hx'] at hf
+      have hmem : r0 ∈ t := List.mem_of_find?_eq_some hf
+      have hid : (x.id == r0.id) = false := by
+        have : x.id ≠ r0.id := fun e => hn.1 (e ▸ List.mem_map_of_mem (f := (·.id)) hmem)
+        simpa using this
+      have := ih hn.2 hf
+      simp only [setInRow, List.map_cons] at this ⊢
+      rw [this, hid]
+      simp [updateFirst, hx']
+
+theorem ref_replaceChar {b : Bag} (h : Good b) (name : String) (site : Int) (c : Byte) :
+    Refines b (.replaceChar name site c) := by
+  intro s' st e
+  simp only [Spec.stepOp, Model.stepOp, abs_isAlign] at e ⊢
+  by_cases ha : b.isAlign = true
+  · simp only [ha, Bool.not_true, Bool.false_eq_true, if_false, h.rect.abs_length ha] at e ⊢
+    by_cases c1 : site < 0
+    · have hv : replaceChar name site c b = some (b, true) := by unfold replaceChar; rw [if_pos c1]
+      simp only [c1, decide_true, Bool.true_or, if_true, Prod.mk.injEq, Option.some.injEq] at e
+      simp only [hv]
+      exact ⟨e.1, by simpa using e.2, h⟩
+    · by_cases c2 : site ≥ b.length
+      · have hv : replaceChar name site c b = some (b, true) := by
+          unfold replaceChar; rw [if_neg c1, if_pos c2]
+        simp only [c2, decide_true, Bool.or_true, if_true, Prod.mk.injEq, Option.some.injEq] at e
+        simp only [hv]
+        exact ⟨e.1, by simpa using e.2, h⟩
+      · simp only [c1, c2, decide_false, Bool.or_false, Bool.false_eq_true, if_false] at e
+        have hfirst := h.first name
+        cases hf : b.rows.find? (fun r => r.name == name) with
+        | none =>
+          have hl : idxLookup name b.index = none := by rw [hfirst, hf]; rfl
+          have hv : replaceChar name site c b = some (b, true) := by
+            unfold replaceChar; rw [if_neg c1, if_neg c2]; simp only [hl]
+          have hn : (firstNamed name (abs b).rows).isNone = true := by
+            rw [abs_rows, pairs, firstNamed_pairs, hf]; rfl
+          rw [if_pos hn] at e
+          simp only [Prod.mk.injEq, Option.some.injEq] at e
+          simp only [hv]
+          exact ⟨e.1, by simpa using e.2, h⟩
+        | some r0 =>
+          have hl : idxLookup name b.index = some r0.id := by rw [hfirst, hf]; rfl
+          have hshort : (b.rows.any fun r => r.id == r0.id && decide (r.seq.length ≤ site.toNat)) = false := by
+            simp only [List.any_eq_false, Bool.and_eq_true, decide_eq_true_eq, not_and, Nat.not_le]
+            intro r hr _
+            have := h.rect.rows_len ha r hr
+            omega
+          have hv : replaceChar name site c b =
+              some ({ b with rows := setInRow r0.id site.toNat c b.rows }, false) := by
+            unfold replaceChar; rw [if_neg c1, if_neg c2]; simp only [hl, hshort]
+            simp
+          have hn : ¬ (firstNamed name (abs b).rows).isNone = true := by
+            rw [abs_rows, pairs, firstNamed_pairs, hf]; simp
+          rw [if_neg hn] at e
+          simp only [Prod.mk.injEq, Option.some.injEq] at e
+          obtain ⟨e1, e2⟩ := e
+          subst e1 e2
+          simp only [hv]
+          refine ⟨?_, by simp, ?_⟩
+          · have := pairs_setInRow h.inv.ids_nodup hf site.toNat c
+            simp only [abs, pairs] at this ⊢
+            rw [this, ha]
+          · exact h.transfer_seqs (by simp only []; rw [keys_setInRow]) rfl rfl rfl rfl
+              (h.rect.congr rfl rfl (lens_setInRow _ _ _ _))
+  · have ha' : b.isAlign = false := by simpa using ha
+    simp only [ha', Bool.not_false, if_true, Prod.mk.injEq, Option.some.injEq] at e ⊢
+    exact ⟨e.1, e.2, h⟩
+
 end Gv.Proofs.BagAbs
